@@ -1,6 +1,7 @@
 import BppProofs.Lemmas.Rand
 import BppProofs.Lemmas.RandRcont
 import BppProofs.Lemmas.RandLaw
+import BppProofs.Lemmas.RandSampleLaw
 /-!
 # C18 — random draws   (RandomTools, ContingencyTableGenerator, ContingencyTableTest, discrete rand)
 
@@ -242,6 +243,127 @@ theorem weighted_pick_support (pre : List ℝ) (x : ℝ) (post : List ℝ) (u : 
 theorem weighted_pick_total {α : Type} [Scalar α] (w : List α) (u : α) (hw : w ≠ []) :
     ∃ pos, weightedIndex w.length w u = .ok pos ∧ pos < w.length :=
   weightedIndex_ok (List.length_pos_iff.mpr hw) rfl u
+
+/-! ### the law as an executable predicate: what the driver evaluates on the implementation's
+recorded draws (`FAIL:weighted_pick_law`, `FAIL:weighted_sample_law`, `FAIL:weighted_sample_norepl_law`) -/
+
+/-- `inWeightInterval w u i` says: `Σ_{j<i} wⱼ / Σw ≤ u < Σ_{j≤i} wⱼ / Σw` -/
+theorem inWeightInterval_spec (w : List ℝ) (u : ℝ) (i : Nat) (hi : i < w.length) :
+    inWeightInterval w u i = true ↔ (w.take i).sum / w.sum ≤ u ∧ u < (w.take (i + 1)).sum / w.sum :=
+  inWeightInterval_iff w u i hi
+
+/-- `weighted_pick_law` in predicate form: for non-negative weights with a positive total and a
+uniform draw `u ∈ [0,1)`, position `i` is chosen iff the weight interval of `i` contains `u` -/
+theorem weighted_pick_law_interval (w : List ℝ) (u : ℝ) (i : Nat) (hi : i < w.length)
+    (hw : weightsOk w = true) (hu0 : 0 ≤ u) (hu1 : u < 1) :
+    weightedIndex w.length w u = .ok i ↔ inWeightInterval w u i = true := by
+  obtain ⟨h1, h2⟩ := (weightsOk_iff w).mp hw
+  exact weightedIndex_iff_interval w u i hi h1 h2 hu0 hu1
+
+/-- the weight intervals partition `[0,1)`: every draw lies in the interval of exactly one position
+(so "the element whose weight interval contains the draw" is well defined) -/
+theorem weight_intervals_partition (w : List ℝ) (u : ℝ) (hw : weightsOk w = true) (hu0 : 0 ≤ u) (hu1 : u < 1) :
+    ∃ i, i < w.length ∧ inWeightInterval w u i = true ∧ ∀ j, inWeightInterval w u j = true → j = i := by
+  obtain ⟨h1, h2⟩ := (weightsOk_iff w).mp hw
+  have hne : w ≠ [] := by intro h; subst h; simp at h2
+  obtain ⟨i, hi, hlt⟩ := weighted_pick_total w u hne
+  refine ⟨i, hlt, (weightedIndex_iff_interval w u i hlt h1 h2 hu0 hu1).mp hi, ?_⟩
+  intro j hj
+  have hjl := inWeightInterval_lt_length w u j hj
+  have := (weightedIndex_iff_interval w u j hjl h1 h2 hu0 hu1).mpr hj
+  rw [hi] at this
+  exact (Except.ok.inj this).symm
+
+/-- both weighted `pickOne` overloads follow the weights: the element returned is one whose weight
+interval contains the draw -/
+theorem weighted_pick_follows_weights {τ : Type} [BEq τ] [LawfulBEq τ] (v : List τ) (w : List ℝ) (replace : Bool) (u : ℝ)
+    (hv : v ≠ []) (hwl : w.length = v.length) (hw : weightsOk w = true) (hu0 : 0 ≤ u) (hu1 : u < 1) :
+    (∃ e v' w', pickOneW v w replace u = .ok (e, v', w') ∧ lawElem v w u e = true) ∧
+    (∃ e, pickOneWConst v w u = .ok e ∧ lawElem v w u e = true) := by
+  obtain ⟨h1, h2⟩ := (weightsOk_iff w).mp hw
+  refine ⟨pickOneW_law v w replace u hv hwl h1 h2 hu0 hu1, ?_⟩
+  obtain ⟨e, v', w', hp, hl⟩ := pickOneW_law v w true u hv hwl h1 h2 hu0 hu1
+  exact ⟨e, by simp [pickOneWConst, hp], hl⟩
+
+/-- `weighted_sample_law`: every element of a weighted sample WITH replacement is the element whose
+weight interval (normalised by `Σw`) contains its own uniform draw — for every sample size `k`,
+shorter than, equal to or longer than the source -/
+theorem weighted_sample_law {τ : Type} [BEq τ] [LawfulBEq τ] (vin : List τ) (w : List ℝ) (k : Nat) (draws : List ℝ)
+    (hwl : w.length = vin.length) (hw : weightsOk w = true) (hk : k ≤ draws.length)
+    (hu : ∀ u ∈ draws, 0 ≤ u ∧ u < 1) :
+    ∃ out, getSampleW vin w k true draws = .ok out ∧ out.length = k ∧
+      lawSampleRepl vin w (draws.take k) out = true := by
+  obtain ⟨h1, h2⟩ := (weightsOk_iff w).mp hw
+  have hne : vin ≠ [] := by
+    intro h; subst h
+    have : w = [] := List.length_eq_zero_iff.mp (by simpa using hwl)
+    subst this; simp at h2
+  obtain ⟨out, ho⟩ := sampleWRepl_ok w hwl hne k draws hk
+  have hlen := (sampleWRepl_mem _ w k draws out ho).1
+  exact ⟨out, by simp [getSampleW, ho], hlen, sampleWRepl_law vin w hwl h1 h2 k draws out hk hu ho⟩
+
+/-- `weighted_sample_norepl_law`: the same WITHOUT replacement — each element is the one whose
+interval among the elements still present (with their own weights) contains its draw — as long as
+the sample is not larger than the number of positive weights (beyond that the code divides 0/0 and
+falls back to the last remaining element) -/
+theorem weighted_sample_norepl_law {τ : Type} [BEq τ] [LawfulBEq τ] (vin : List τ) (w : List ℝ) (k : Nat) (draws : List ℝ)
+    (hwl : w.length = vin.length) (hw : ∀ y ∈ w, 0 ≤ y) (hkp : k ≤ nPositive w) (hk : k ≤ draws.length)
+    (hu : ∀ u ∈ draws, 0 ≤ u ∧ u < 1) :
+    ∃ out, getSampleW vin w k false draws = .ok out ∧ lawSampleNoRepl (draws.take k) out vin w = true := by
+  have hkl : k ≤ vin.length := by
+    have : nPositive w ≤ w.length := List.length_filter_le _ _
+    omega
+  obtain ⟨ps, hps, hlaw⟩ := pickPositionsNoRepl_law k (List.range vin.length) w draws (by simp [hwl]) hw hkp hk hu
+  obtain ⟨ps', hps', _, hsub⟩ := pickPositionsNoRepl_ok k (List.range vin.length) w draws (by simp [hwl]) (by simpa using hkl) hk
+  rw [hps] at hps'
+  have hpe : ps' = ps := (Except.ok.inj hps').symm
+  subst hpe
+  have hlt : ∀ i ∈ ps', i < vin.length := fun i hi => List.mem_range.mp (hsub.subset hi)
+  obtain ⟨out, ho, _⟩ := selectBy_ok hlt
+  refine ⟨out, ?_, ?_⟩
+  · have : ¬ vin.length < k := by omega
+    simp [getSampleW, this, hps, ho]
+  · cases hv : vin with
+    | nil =>
+      subst hv
+      have hk0 : k = 0 := by simpa using hkl
+      subst hk0
+      have : ps' = [] := by
+        unfold pickPositionsNoRepl at hps; exact (Except.ok.inj hps).symm
+      subst this
+      simp only [selectBy, Except.ok.injEq] at ho; subst ho
+      simp [lawSampleNoRepl]
+    | cons a rest =>
+      have hmap := lawSampleNoRepl_map (fun p => vin[p]?.getD a) (draws.take k) ps' (List.range vin.length) w hlaw
+      rw [range_map_getD a, ← selectBy_eq_map a ps' out ho] at hmap
+      rw [← hv]; exact hmap
+
+/-! non-vacuity: weights 1, 3 (not normalised): `u = 0.2` lies in `[0, 1/4)`, `u = 0.5` in `[1/4, 1)`;
+a sampler that compared `u` with the un-normalised cumulative sums `1, 4` would return the first
+element for both draws and fail the predicate on the second -/
+example : inWeightInterval ([1, 3] : List ℝ) (1 / 5) 0 = true ∧ inWeightInterval ([1, 3] : List ℝ) (1 / 2) 1 = true
+    ∧ inWeightInterval ([1, 3] : List ℝ) (1 / 2) 0 = false := by
+  refine ⟨?_, ?_, ?_⟩
+  · rw [inWeightInterval_spec _ _ _ (by simp)]; norm_num
+  · rw [inWeightInterval_spec _ _ _ (by simp)]; norm_num
+  · rw [Bool.eq_false_iff]; intro h
+    rw [inWeightInterval_spec _ _ _ (by simp)] at h; norm_num at h
+example : weightsOk ([1, 3] : List ℝ) = true := (weightsOk_iff _).mpr ⟨by simp, by norm_num⟩
+example : ∃ out, getSampleW [10, 20] ([1, 3] : List ℝ) 3 true [1 / 5, 1 / 2, 9 / 10] = .ok out ∧ out.length = 3 ∧
+    lawSampleRepl [10, 20] ([1, 3] : List ℝ) [1 / 5, 1 / 2, 9 / 10] out = true :=
+  weighted_sample_law [10, 20] [1, 3] 3 _ rfl ((weightsOk_iff _).mpr ⟨by simp, by norm_num⟩) (by simp)
+    (by intro u hu; simp only [List.mem_cons, List.not_mem_nil, or_false] at hu; rcases hu with rfl | rfl | rfl <;> norm_num)
+/-- the sample `10, 10` for the draws `0.2, 0.5` (what a pick from the un-normalised cumulative sums
+returns) does not satisfy the predicate -/
+example : lawSampleRepl [10, 20] ([1, 3] : List ℝ) [1 / 5, 1 / 2] [10, 10] = false := by
+  rw [Bool.eq_false_iff]; intro h
+  simp only [lawSampleRepl, Bool.and_eq_true, lawElem, List.any_eq_true, List.mem_range] at h
+  obtain ⟨_, ⟨i, hi, h2⟩, _⟩ := h
+  simp only [List.length_cons, List.length_nil] at hi
+  have hi' : i = 0 ∨ i = 1 := by omega
+  rcases hi' with rfl | rfl
+  · rw [inWeightInterval_spec _ _ _ (by simp)] at h2; norm_num at h2
+  · simp at h2
 
 /-- `pickFromCumSum` on a cumulative vector `c = pre ++ x :: post`: the position of `x` is returned
 iff every earlier entry is `< u` and (`x` is the last entry or `u ≤ x`).  For a non-decreasing `c`
